@@ -2,7 +2,8 @@
   Model of the library's cell-reading path, as it is in the worktree AFTER the fixes
   (reader/driver.rs get_attribute + get_attribute_value, structs/cell.rs Cell::set_attributes,
   structs/cell_value.rs guess_typed_data / set_shared_string_item, structs/shared_string_item.rs,
-  structs/text.rs, structs/cell_formula.rs set_attributes "Shared" branch, structs/columns.rs).
+  structs/text.rs, structs/cell_formula.rs set_attributes "Shared" branch, structs/columns.rs,
+  structs/row.rs Row::set_attributes + structs/coordinate.rs set_coordinate for the positions).
 
   What is abstracted.  The library reads quick-xml events; the model reads the element tree of
   `Umya.Spec.Xml` (same `Node` type, reused only as a container):
@@ -10,12 +11,18 @@
       attribute value is theorem `C03_attr` (raw text → value), stated on the raw text;
     * a text child stands for one `Event::Text` after `unescape()`; `trim_text(true)` of the sheet
       reader is modelled by `trimWs` (quick-xml trims the bytes ' ', '\t', '\r', '\n'), and a text that
-      is empty after trimming produces no event;
+      is empty after trimming produces no event.  Trimming is switched off inside `<f>` (fix 045f37e),
+      inside the `<v>` of a `t="str"` cell (fix 12ac4b7), inside a `<t xml:space="preserve">`, and in
+      the whole shared-strings part;
     * "the last event wins" loops (`string_value = …`, `self.set_text(obj)`) are modelled by taking the
       LAST matching child; elements are matched by local name (the library matches the unprefixed
       name only: prefixed SpreadsheetML names are outside the model);
-    * `<v/>` (an Empty event, ignored by the library) is not distinguished from `<v></v>`;
-    * f64 values are the source text (`Raw.num`), compared as text; a Rust panic is `none`.
+    * character data directly inside `<c>` (the schema allows none; blanks are trimmed away) is outside
+      the model: the library would take it for the text of a following empty `<v></v>`;
+    * `<v/>`, `<t/>`, `<r/>`, `<is/>` (Empty events, ignored by the library) are not distinguished from
+      `<v></v>` … (Start + End events);
+    * f64 values are the source text (`Raw.num`), compared as text; a Rust panic is `none`
+      (`unwrap` on a parse error or a missing table entry, `u32` overflow in a build with overflow checks).
 -/
 import Umya.Spec.XmlLex
 import Umya.Model.XmlEsc
@@ -82,21 +89,31 @@ def stringItem (trim : Bool) (si : Node) : Option Text :=
     some (runs.flatMap fun r => ((lastKid? r "t").map (tText trim)).getD [])
   else (lastKid? si "t").bind fun t => if t.children.isEmpty then none else some (tText trim t)
 
-/-- `str::parse::<usize>()` (an optional `+`, then digits) -/
+/-- `str::parse::<usize>()` / `parse::<u32>()`: an optional `+`, then one or more ASCII digits, and the
+    value must fit the type (`bound` = 2^64 on the 64-bit targets the crate is built for, 2^32) -/
 def stripPlus : Text → Text
   | '+' :: r => r
   | t => t
 
-def parseUsize (t : Text) : Option Nat :=
+def parseUInt (bound : Nat) (t : Text) : Option Nat :=
   let ds := stripPlus t
-  if ds ≠ [] ∧ ds.all Char.isDigit then some (ds.foldl (fun a c => 10 * a + (c.toNat - 48)) 0) else none
+  if ds ≠ [] ∧ ds.all Char.isDigit then
+    let n := ds.foldl (fun a c => 10 * a + (c.toNat - 48)) 0
+    if n < bound then some n else none
+  else none
+
+def usizeBound : Nat := 18446744073709551616
+def u32Bound : Nat := 4294967296
+
+def parseUsize (t : Text) : Option Nat := parseUInt usizeBound t
+def parseU32 (t : Text) : Option Nat := parseUInt u32Bound t
 
 structure CellR where
-  ref : Text                  -- `r` as read; empty = the coordinate keeps its default (A1)
+  ref : Text                  -- `r` as read; empty = no `r` (the position is implied: `cellPositions`)
   style : Nat
   raw : Raw
   formula : Option Text       -- own text of `f`
-  shared : Option Nat         -- `si` when `f t="shared"`
+  shared : Option Nat         -- the group of an `f t="shared"`
   deriving Repr
 
 /-- the `s` attribute: `v.parse::<usize>().unwrap()`; `none` = panic -/
@@ -110,34 +127,50 @@ def styleOf (c : Node) : Option Nat :=
 def afterV (sst : List (Option Text)) (t : Text) : Option Node → Option Raw
   | none => some .empty
   | some v =>
-    if t = "str".toList then some (.str (lastText true v))
+    if t = "str".toList then some (.str (lastText false v))
     else if t = "s".toList then
       (parseUsize (lastText true v)).bind fun i => match sst[i]? with
         | some (some s) => some (.str s)
         | some none => some .empty
         | none => none
-    else if t = "b".toList then some (.bool (lastText true v = ['1']))
+    else if t = "b".toList then some (.bool (lastText true v = ['1'] ∨ lastText true v = "true".toList))
     else if t = "e".toList then some (guessTyped (lastText true v))
     else if t = [] ∨ t = "n".toList then some (guessTyped (lastText true v))
     else some .empty
 
-/-- `Cell::set_attributes`; `sst i` = the string item `i` of the table (`none` = no text / no item) -/
-def readCell (sst : List (Option Text)) (c : Node) : Option CellR :=
+/-- the attributes of `<f>` that matter here (`CellFormula::set_attributes`): every `si` found is
+    parsed (`parse::<u32>().unwrap()`, `none` = panic); the group of a `t="shared"` formula is
+    `shared_index.get_value()`, which is 0 when there is no `si` -/
+def sharedOf (f : Node) : Option (Option Nat) :=
+  let si : Option (Option Nat) := match f.attr? "si".toList with
+    | some s => (parseU32 s).map some
+    | none => some none
+  si.map fun i => if f.attr? "t".toList = some "shared".toList then some (i.getD 0) else none
+
+/-- the formula group of the cell: the last `<f>` read wins (`set_formula_obj`) -/
+def groupOf (c : Node) : Option (Option Nat) :=
+  match lastKid? c "f" with
+  | some fe => sharedOf fe
+  | none => some none
+
+/-- the raw value after `</c>`: the `</v>` branch, then the `<is>` branch (after fix f6f54a2: a string
+    item, always text, only for `t="inlineStr"`); the order of `<v>` and `<is>` does not matter because
+    the `</v>` branch does nothing for `inlineStr`; `sst i` = the text of string item `i` of the table
+    (`none` = an item without text; every `si` child of `sst` is an item, `<si/>` included since fix_2) -/
+def rawOf (sst : List (Option Text)) (c : Node) : Option Raw :=
   let t := (c.attr? "t".toList).getD []
-  let style? : Option Nat := styleOf c
-  let f := lastKid? c "f"
-  let formula := f.map (lastText true)
-  let shared := f.bind fun fe =>
-    if fe.attr? "t".toList = some "shared".toList then (fe.attr? "si".toList).bind parseUsize else none
-  let afterV : Option Raw := afterV sst t (lastKid? c "v")
-  -- the `<is>` branch (after the fix: a string item, always text)
-  let raw? : Option Raw := afterV.map fun r =>
+  (afterV sst t (lastKid? c "v")).map fun r =>
     match lastKid? c "is" with
     | some is_ => if t = "inlineStr".toList then (match stringItem true is_ with | some s => .str s | none => r) else r
     | none => r
-  match style?, raw? with
-  | some st, some r => some { ref := (c.attr? "r".toList).getD [], style := st, raw := r, formula := formula, shared := shared }
-  | _, _ => none
+
+/-- `Cell::set_attributes` (`none` = panic) -/
+def readCell (sst : List (Option Text)) (c : Node) : Option CellR :=
+  match styleOf c, groupOf c, rawOf sst c with
+  | some st, some sh, some r =>
+    some { ref := (c.attr? "r".toList).getD [], style := st, raw := r,
+           formula := (lastKid? c "f").map (lastText false), shared := sh }
+  | _, _, _ => none
 
 /-- what the public getters show: `get_data_type`, `get_value` -/
 def Raw.kind : Raw → String
@@ -145,6 +178,47 @@ def Raw.kind : Raw → String
 
 def Raw.text : Raw → Text
   | .empty => [] | .str s => s | .num t => t | .bool b => if b then "TRUE".toList else "FALSE".toList | .err e => e
+
+/-! ## positions of rows and cells (fix 8281a0c): `Row::set_attributes`, `Cell::set_attributes`,
+     `Coordinate::set_coordinate` -/
+
+/-- `Coordinate::set_coordinate(ref)`: the four results of `index_from_coordinate` are unwrapped
+    (`none` = panic: no column letters, no row digits, or a row number that does not fit `u32`) -/
+def setCoordinate (ref : Text) : Option (Nat × Nat) :=
+  match Umya.Coord.indexFromCoordinate ref with
+  | (some c, some r, some _, some _) => some (c, r)
+  | _ => none
+
+/-- (column, row) of the cells of one row: a cell with `r` is where `r` says; a cell without `r` gets
+    `coordinate_from_index(last_col_num + 1, row_num)` (the text is parsed again by `set_coordinate`,
+    hence a panic beyond column ZZZ); `last_col_num` becomes the column of the cell just read.
+    `rs` = what `get_attribute(e, b"r")` gave for each `<c>` -/
+def cellPositions (rowNum : Nat) : Nat → List (Option Text) → Option (List (Nat × Nat))
+  | _, [] => some []
+  | last, r :: rest =>
+    let ref := match r with
+      | some v => v
+      | none => Umya.Coord.coordinateFromIndexWithLock (last + 1) rowNum false false
+    match setCoordinate ref with
+    | none => none
+    | some (col, row) => (cellPositions rowNum col rest).map ((col, row) :: ·)
+
+/-- the number of a `<row>`: `r` parsed as `u32` (unwrap), else `*last_row_num + 1` -/
+def rowNumber (last : Nat) (r : Option Text) : Option Nat :=
+  match r with
+  | some v => parseU32 v
+  | none => if last + 1 < u32Bound then some (last + 1) else none
+
+/-- the rows of a `<sheetData>`: (row number, positions of its cells); `last_row_num` starts at 0 -/
+def sheetPositions : Nat → List Node → Option (List (Nat × List (Nat × Nat)))
+  | _, [] => some []
+  | last, row :: rest =>
+    match rowNumber last (row.attr? "r".toList) with
+    | none => none
+    | some n =>
+      match cellPositions n 0 ((row.kids "c").map (·.attr? "r".toList)) with
+      | none => none
+      | some cs => (sheetPositions n rest).map ((n, cs) :: ·)
 
 /-! ## shared formulas: `formula_shared_list` and the "Shared" branch of `CellFormula::set_attributes` -/
 
